@@ -29,6 +29,10 @@ def opStep (sh : Shape) (s : AState) : Sexp → Option (AState × String)
     match slotOfKind sh k n with
     | some i => pure (edit s i id, "ok")
     | none => pure (s, "ok")
+  | .list [.atom "printauto", .atom k] => do
+    -- `k` = number of printed elements without an identifier (counted by the harness in the plain print)
+    let k ← k.toNat?
+    pure (s, s!"(p 1 0 {k}" ++ String.join ((freshIds (printerIds sh s.ids) k).map fun i => " " ++ H i) ++ ")")
   | .list [.atom "setmodel"] => let s' := setModel s s.ids; some (s', "ok")
   | .list [.atom "switch"] => let s' := switchModel s; some (s', "ok")
   | .list [.atom "edit", .atom i, id] => do let i ← i.toNat?; let id ← str id; pure (edit s i id, "ok")
